@@ -91,6 +91,12 @@ Previous.vos Previous.vok Previous.required_vos: Previous.v Collection.vos Store
 PreviousFacts.vo PreviousFacts.glob PreviousFacts.v.beautified PreviousFacts.required_vo: PreviousFacts.v Bytes.vo Segment.vo Stack.vo StackFacts.vo Collection.vo CollectionFacts.vo Store.vo StoreFacts.vo Previous.vo
 PreviousFacts.vio: PreviousFacts.v Bytes.vio Segment.vio Stack.vio StackFacts.vio Collection.vio CollectionFacts.vio Store.vio StoreFacts.vio Previous.vio
 PreviousFacts.vos PreviousFacts.vok PreviousFacts.required_vos: PreviousFacts.v Bytes.vos Segment.vos Stack.vos StackFacts.vos Collection.vos CollectionFacts.vos Store.vos StoreFacts.vos Previous.vos
+PrevTree.vo PrevTree.glob PrevTree.v.beautified PrevTree.required_vo: PrevTree.v Tree.vo TreeRun.vo
+PrevTree.vio: PrevTree.v Tree.vio TreeRun.vio
+PrevTree.vos PrevTree.vok PrevTree.required_vos: PrevTree.v Tree.vos TreeRun.vos
+PrevTreeFacts.vo PrevTreeFacts.glob PrevTreeFacts.v.beautified PrevTreeFacts.required_vo: PrevTreeFacts.v Bytes.vo Segment.vo Tree.vo TreeRun.vo PrevTree.vo
+PrevTreeFacts.vio: PrevTreeFacts.v Bytes.vio Segment.vio Tree.vio TreeRun.vio PrevTree.vio
+PrevTreeFacts.vos PrevTreeFacts.vok PrevTreeFacts.required_vos: PrevTreeFacts.v Bytes.vos Segment.vos Tree.vos TreeRun.vos PrevTree.vos
 Faults.vo Faults.glob Faults.v.beautified Faults.required_vo: Faults.v 
 Faults.vio: Faults.v 
 Faults.vos Faults.vok Faults.required_vos: Faults.v 
@@ -103,6 +109,12 @@ Sync.vos Sync.vok Sync.required_vos: Sync.v
 SyncFacts.vo SyncFacts.glob SyncFacts.v.beautified SyncFacts.required_vo: SyncFacts.v Sync.vo
 SyncFacts.vio: SyncFacts.v Sync.vio
 SyncFacts.vos SyncFacts.vok SyncFacts.required_vos: SyncFacts.v Sync.vos
+Sync2.vo Sync2.glob Sync2.v.beautified Sync2.required_vo: Sync2.v 
+Sync2.vio: Sync2.v 
+Sync2.vos Sync2.vok Sync2.required_vos: Sync2.v 
+Sync2Facts.vo Sync2Facts.glob Sync2Facts.v.beautified Sync2Facts.required_vo: Sync2Facts.v Sync2.vo
+Sync2Facts.vio: Sync2Facts.v Sync2.vio
+Sync2Facts.vos Sync2Facts.vok Sync2Facts.required_vos: Sync2Facts.v Sync2.vos
 Iterator.vo Iterator.glob Iterator.v.beautified Iterator.required_vo: Iterator.v Bytes.vo Segment.vo Stack.vo
 Iterator.vio: Iterator.v Bytes.vio Segment.vio Stack.vio
 Iterator.vos Iterator.vok Iterator.required_vos: Iterator.v Bytes.vos Segment.vos Stack.vos
